@@ -6,7 +6,7 @@ import gen, lang, meta, findings
 from props import c04, c03
 
 PROP_FILE = 'Props/C12.v'
-GROUPS = ['imain']
+GROUPS = ['imain', 'transformers']
 LEAF_LEMMAS = []
 ASSUMPTIONS = ['gringo/clasp contract G1-G6 (DESIGN.md 5.3)']
 
